@@ -1057,7 +1057,9 @@ HandleElementResult NonSaslAuthManager::handleElement(const QDomElement &el)
 
             query.p.finish(QXmppError { iq.error().text(), iq.error() });
         }
-        return Finished;
+        // The continuation may have started the authentication query on this manager: in that
+        // case it has to stay the active listener to receive the result.
+        return std::holds_alternative<NoQuery>(m_query) ? Finished : Accepted;
     }
 
     if (std::holds_alternative<AuthQuery>(m_query)) {
